@@ -393,13 +393,14 @@ pub fn tt_decompose(vector: &[f32], config: &TTConfig) -> Result<TTVector, TTErr
     let mut left_rank = 1;
 
     // The norms below square the components: a vector of magnitude 1e-23 underflows to
-    // norm 0 (every unfolding then has rank 0), one of magnitude 1e20 overflows. Such vectors
-    // are decomposed at unit scale and the scale is put back into the last core.
+    // norm 0 (every unfolding then has rank 0), one of magnitude 1e20 overflows, and the
+    // orthogonalisation treats norms below an absolute 1e-10 as zero. Vectors away from unit
+    // scale are decomposed at unit scale and the scale is put back into the last core.
     let max_abs = vector
         .iter()
         .filter(|x| x.is_finite())
         .fold(0.0f32, |m, x| m.max(x.abs()));
-    let scale = if max_abs > 0.0 && !(1e-12..=1e12).contains(&max_abs) {
+    let scale = if max_abs > 0.0 && !(1e-4..=1e4).contains(&max_abs) {
         for x in &mut current_data {
             *x /= max_abs;
         }
